@@ -89,3 +89,141 @@ func S3(maxPacket, ops, digests, dups, holds int) *Scenario {
 		Oracles: OracleSet{C02: true, C13: true, C14: true},
 	}
 }
+
+// S4: membership: leave (every subset of peers missing the notification),
+// crash, suspicion, recovery, expiry sweeps with skew, re-learning.
+func S4(n, digests, dups, holds, sweeps, suspects int, crash bool) *Scenario {
+	ids := []string{"nA", "nB", "nC", "nD"}[:n]
+	var init []Event
+	for i := 1; i < n; i++ {
+		init = append(init, ev("join", i, 0))
+	}
+	// second pass so that everybody knows everybody
+	for i := 1; i < n; i++ {
+		init = append(init, ev("join", i, 0))
+	}
+	last := n - 1
+	var susp [][2]int
+	var sweepers []int
+	for i := 0; i < n; i++ {
+		sweepers = append(sweepers, i)
+		for j := 0; j < n; j++ {
+			if i != j && (j == last || i == last) {
+				susp = append(susp, [2]int{i, j})
+			}
+		}
+	}
+	sc := &Scenario{
+		Name: "S4-membership", IDs: ids, MaxPacket: 1400, Init: init,
+		Ops: map[int][]Event{last: {{Kind: "leave"}, {Kind: "up", K: "a", V: "1"}}}, MaxOps: map[int]int{last: 2},
+		LeaveMasks: true,
+		Digests:    pairs(n), MaxDigests: digests, Perms: "id", MaxDups: dups, MaxInflight: 3, MaxHolds: holds,
+		Suspects: susp, MaxSuspect: suspects, MaxSweeps: sweeps, Sweepers: sweepers,
+		Oracles: OracleSet{C11: true},
+	}
+	if crash {
+		sc.Crash = []int{last}
+		sc.MaxCrash = 1
+	}
+	return sc
+}
+
+// S5: discovery: a node first learned from a digest, from a delta, from a
+// join; digest truncation (the digest of 3 nodes does not fit).
+func S5(maxPacket, ops, digests, dups, holds int) *Scenario {
+	return &Scenario{
+		Name: "S5-discovery", IDs: []string{"nX", "nR", "nO"}, MaxPacket: maxPacket,
+		Init: []Event{ev("join", 1, 0)},
+		Ops:  map[int][]Event{0: {{Kind: "up", K: "a", V: "1"}, {Kind: "up", K: "b", V: "1"}, {Kind: "del", K: "a"}}}, MaxOps: map[int]int{0: ops},
+		Digests: pairs(3), MaxDigests: digests, Perms: "rot", MaxDups: dups, MaxInflight: 3, MaxHolds: holds,
+		Joins: [][2]int{{2, 1}, {2, 0}}, MaxJoins: 1,
+		Oracles: OracleSet{C02: true, C13: true, C14: true},
+	}
+}
+
+// S6: routing: real syncer + cluster.State on every node; endpoint churn on
+// the owner, compaction, truncation, relay, leave, suspicion, expiry and
+// re-learning, observer joining at any point.
+func S6(maxPacket, ops, digests, dups, holds int, membership bool) *Scenario {
+	epOps := []Event{
+		{Kind: "addep", K: "e1"}, {Kind: "addep", K: "e2"},
+		{Kind: "rmep", K: "e1"}, {Kind: "rmep", K: "e2"},
+		{Kind: "compact"},
+	}
+	sc := &Scenario{
+		Name: "S6-routing", IDs: []string{"nX", "nR", "nO"}, MaxPacket: maxPacket, Routing: true,
+		Blocked: [][2]int{{0, 2}, {2, 0}},
+		Init:    []Event{ev("join", 1, 0)},
+		Ops:     map[int][]Event{0: epOps}, MaxOps: map[int]int{0: ops},
+		Digests: [][2]int{{1, 0}, {2, 1}, {1, 2}}, MaxDigests: digests,
+		Perms: "id", MaxDups: dups, MaxInflight: 3, MaxHolds: holds,
+		Joins: [][2]int{{2, 1}}, MaxJoins: 1,
+		Oracles: OracleSet{C04: true},
+	}
+	if membership {
+		sc.Name = "S6m-routing-membership"
+		sc.Ops[0] = append(sc.Ops[0], Event{Kind: "leave"})
+		sc.Suspects = [][2]int{{1, 0}, {2, 0}, {2, 1}}
+		sc.MaxSuspect = 1
+		sc.MaxSweeps = 1
+		sc.Sweepers = []int{1, 2}
+	}
+	return sc
+}
+
+// ByName rebuilds a scenario from its name and parameters (used by replay).
+type Params struct {
+	Name                                           string
+	MaxPacket, Ops, Digests, Dups, Holds, N        int
+	Sweeps, Suspects                               int
+	Flag                                           bool
+	Closure                                        bool
+	Oracles                                        OracleSet
+}
+
+func Build(p Params) *Scenario {
+	var sc *Scenario
+	switch p.Name {
+	case "S1":
+		sc = S1(p.MaxPacket, p.Ops, p.Digests, p.Dups, p.Holds)
+	case "S2":
+		sc = S2(p.MaxPacket, p.Ops, p.Digests, p.Dups, p.Holds, p.Flag)
+	case "S3":
+		sc = S3(p.MaxPacket, p.Ops, p.Digests, p.Dups, p.Holds)
+	case "S4":
+		sc = S4(p.N, p.Digests, p.Dups, p.Holds, p.Sweeps, p.Suspects, p.Flag)
+	case "S5":
+		sc = S5(p.MaxPacket, p.Ops, p.Digests, p.Dups, p.Holds)
+	case "S6":
+		sc = S6(p.MaxPacket, p.Ops, p.Digests, p.Dups, p.Holds, p.Flag)
+	case "S7":
+		sc = S7(p.MaxPacket, p.Ops, p.Digests, p.Holds)
+	default:
+		panic("unknown scenario " + p.Name)
+	}
+	sc.Closure = p.Closure
+	sc.Oracles = p.Oracles
+	return sc
+}
+
+// BigValue does not fit any datagram of the sizes used by S7.
+var BigValue = func() string {
+	b := make([]byte, 150)
+	for i := range b {
+		b[i] = 'x'
+	}
+	return string(b)
+}()
+
+// S7: an entry larger than one datagram (finding F1): everything the owner
+// writes after it can never be propagated by UDP gossip.
+func S7(maxPacket, ops, digests, holds int) *Scenario {
+	return &Scenario{
+		Name: "S7-oversize-entry", IDs: []string{"nX", "nO"}, MaxPacket: maxPacket,
+		Init: []Event{ev("join", 1, 0)},
+		Ops: map[int][]Event{0: {{Kind: "up", K: "a", V: "1"}, {Kind: "up", K: "b", V: BigValue}, {Kind: "up", K: "c", V: "1"}}},
+		MaxOps: map[int]int{0: ops},
+		Digests: [][2]int{{1, 0}, {0, 1}}, MaxDigests: digests,
+		Perms: "id", MaxInflight: 3, MaxHolds: holds,
+	}
+}
